@@ -91,7 +91,9 @@ def p_static(chk):
 # ----------------------------------------------------------------------------- bounded
 def gen_metabook(rnd):
     from mwlib.core import metabook as M
-    c = M.Collection(title=rnd.choice([None, "T", "Ünï 中"]), subtitle=rnd.choice([None, "s"]))
+    # optional fields absent, present, or present as an explicit null (what a JSON client may send)
+    c = M.Collection(title=rnd.choice([None, "T", "Ünï 中"]), subtitle=rnd.choice([None, "s"]),
+                     **rnd.choice([{}, {}, {"version": None}, {"summary": None}, {"summary": "S"}]))
     if rnd.random() < 0.5:
         c.wikis.append(M.WikiConf(baseurl="http://w.org/", ident="w"))
     for _ in range(rnd.randint(0, 6)):
@@ -102,7 +104,8 @@ def gen_metabook(rnd):
             c.items.append(ch)
         else:
             c.items.append(M.Article(title=rnd.choice(["X", "Ärger", "中文", "A b"]) + str(rnd.randint(0, 9)),
-                                     displaytitle=rnd.choice([None, "D"]), revision=rnd.choice([None, "3"])))
+                                     displaytitle=rnd.choice([None, "D"]), revision=rnd.choice([None, "3"]),
+                                     **rnd.choice([{}, {}, {"content_type": None}])))
     return c
 
 
